@@ -1,8 +1,113 @@
 import Labella.Model.LayoutSpec
+import Labella.Proofs.LayoutSep
+import Labella.Proofs.DistributeLemmas
+/-! # C04 — layering conserves labels and builds complete stub chains within capacity
+# C06 — a layout is a pure function of the labels and options
+
+For every label list (ties, identical positions, labels wider than a layer, 1–2 labels) and every option set. -/
 namespace Labella.C04
 open Labella Labella.Layout
 
-theorem placeholder_empty (o : DOpts) : distribute o [] = [] := by
-  simp [distribute]
+/-- every input label is placed in exactly one layer (as a label) -/
+theorem distribute_conserves (o : DOpts) (labels : List Label) :
+    (labelIds (distribute o labels)).Perm (List.range labels.length) := by
+  rcases distribute_cases o labels with ⟨hnil, e⟩ | ⟨_, ids, hp, e⟩ | ⟨_, _, nl, hnl, e⟩ | ⟨_, _, _, e⟩
+  · subst hnil; rw [e]; exact List.Perm.refl _
+  · rw [e, labelIds_eq]
+    simpa [labs_map_label] using hp
+  · rw [e]
+    exact (labelIds_simpleLayers _ nl (by omega)).trans (sortIds_perm labels)
+  · rw [e, labelIds_withStubs]
+    exact (overlapLayers_perm labels o _ _ _).trans (sortIds_perm labels)
+
+/-- the stubs of layer `j` are exactly one stub — tagged with level `j` — for each label of a farther layer,
+and nothing else: a label in layer `k` owns exactly one stub in each nearer layer, no other items exist -/
+theorem stubs_exact (o : DOpts) (labels : List Label) (j : Nat) (layer : List Ref)
+    (h : (distribute o labels)[j]? = some layer) :
+    (stubsOf layer).Perm ((labelIds ((distribute o labels).drop (j + 1))).map (fun i => (i, j))) := by
+  rcases distribute_cases o labels with ⟨_, e⟩ | ⟨_, ids, _, e⟩ | ⟨_, _, nl, hnl, e⟩ | ⟨_, _, _, e⟩
+  · rw [e] at h; simp at h
+  · rw [e] at h ⊢
+    cases j with
+    | zero =>
+      simp only [List.getElem?_cons_zero, Option.some.injEq] at h
+      subst h
+      rw [stubsOf_map_label]
+      simp [labelIds]
+    | succ j => simp at h
+  · rw [e] at h ⊢
+    exact stubs_simpleLayers _ nl j layer (by omega) h
+  · rw [e] at h ⊢
+    exact stubs_withStubs _ j layer h
+
+/-- layers that hold labels are contiguous from the axis outward: no label layer follows an empty layer
+(the `simple` algorithm may leave empty layers at the far end when there are fewer labels than layers) -/
+theorem layers_contiguous (o : DOpts) (labels : List Label) :
+    ((distribute o labels).dropWhile (fun l => !l.isEmpty)).all (fun l => l.isEmpty) = true := by
+  apply contiguous_of_DownClosed
+  rcases distribute_cases o labels with ⟨_, e⟩ | ⟨_, ids, _, e⟩ | ⟨_, _, nl, _, e⟩ | ⟨_, _, _, e⟩
+  · rw [e]; exact downClosed_nil
+  · rw [e]; exact downClosed_single _
+  · rw [e]; exact downClosed_simpleLayers _ _
+  · rw [e]; exact downClosed_withStubs _
+
+/-- with no upper bound (layer width absent or 0) everything stays in one layer -/
+theorem no_width_single_layer (o : DOpts) (labels : List Label) (hne : labels ≠ [])
+    (h : o.layerWidth = none ∨ o.layerWidth = some 0) : (distribute o labels).length = 1 := by
+  by_cases hnone : o.algorithm = .none
+  · rw [distribute_none o labels hne hnone]; rfl
+  · rw [distribute_single o labels hne hnone (by rw [estimateLayers_noWidth o _ h])]; rfl
+
+/-- labels that fit the density budget stay in a single layer -/
+theorem fits_single_layer (o : DOpts) (labels : List Label) (hne : labels ≠ [])
+    (hpos : 0 < maxWidthPerLayer o)
+    (hfit : requiredWidth o.nodeSpacing (labels.map (·.width)) ≤ maxWidthPerLayer o) :
+    (distribute o labels).length = 1 := by
+  by_cases hnone : o.algorithm = .none
+  · rw [distribute_none o labels hne hnone]; rfl
+  · rw [distribute_single o labels hne hnone]; · rfl
+    rw [estimateLayers_le_one_iff o _ hpos, requiredWidth_ids _ _ (sortIds_perm labels)]
+    exact hfit
+
+/-- with the default (`overlap`) algorithm every layer's labels, stubs and spacing stay within the budget unless
+the layer holds at most two labels (so in particular the outer loop's fuel always suffices) -/
+theorem overlap_capacity (o : DOpts) (labels : List Label) (halg : o.algorithm = .overlap)
+    (hpos : 0 < maxWidthPerLayer o) :
+    ∀ layer ∈ distribute o labels,
+      requiredWidth o.nodeSpacing (layer.map (refWidth labels o.stubWidth)) ≤ maxWidthPerLayer o ∨
+      (layer.filter (fun r => !r.isStub)).length ≤ 2 := by
+  by_cases hne : labels = []
+  · subst hne; rw [distribute_nil]; intro layer hl; simp at hl
+  have hnone : o.algorithm ≠ .none := by rw [halg]; decide
+  by_cases hnl : estimateLayers o ((sortIds labels).map (widthOf labels)) ≤ 1
+  · rw [distribute_single o labels hne hnone hnl]
+    intro layer hl
+    simp only [List.mem_singleton] at hl
+    subst hl
+    left
+    rw [List.map_map]
+    exact (estimateLayers_le_one_iff o _ hpos).1 hnl
+  · rw [distribute_overlap o labels hne halg hnl]
+    apply capacity_withStubs
+    apply capOK_overlapLayers
+    right; omega
+
+/-- … and three or more labels that do not fit are split into at least two layers -/
+theorem overlap_splits (o : DOpts) (labels : List Label) (halg : o.algorithm = .overlap)
+    (hpos : 0 < maxWidthPerLayer o) (h3 : 3 ≤ labels.length) (hw : o.layerWidth ≠ none ∧ o.layerWidth ≠ some 0)
+    (hbig : maxWidthPerLayer o < requiredWidth o.nodeSpacing (labels.map (·.width))) :
+    2 ≤ (distribute o labels).length := by
+  have _ := hw
+  have hne : labels ≠ [] := by
+    intro e; rw [e] at h3; simp at h3
+  have hbig' : maxWidthPerLayer o <
+      requiredWidth o.nodeSpacing ((sortIds labels).map (widthOf labels)) := by
+    rw [requiredWidth_ids _ _ (sortIds_perm labels)]; exact hbig
+  have hnl : ¬ estimateLayers o ((sortIds labels).map (widthOf labels)) ≤ 1 := by
+    rw [estimateLayers_le_one_iff o _ hpos]; exact not_le_of_gt hbig'
+  rw [distribute_overlap o labels hne halg hnl, withStubs_length]
+  apply overlapLayers_two _ _ _ _ _ _ hbig'
+  rw [(sortIds_perm labels).length_eq, List.length_range]; exact h3
+
 
 end Labella.C04
